@@ -4,7 +4,10 @@ package main
 //
 //	core/coreutil/waiter.go        MaxOverdueDuration, (*Waiter).Wait, (*Waiter).IsSlowDown
 //	core/aggregator/netsample      DiscardedShootCodeError, DiscardedShootTag, DiscardedShootSample
-//	core/engine/instance.go        the fire/discard `if` of (*instance).Run
+//	core/engine/instance.go        the fire/discard `if` of (*instance).Run and the whole loop of Run (`iteration`)
+//	core/coreutil/waiter.go        (*Waiter).IsFinished
+//	core/engine/engine.go          the struct tag of InstancePoolConfig.DiscardOverflow, the wiring into instanceSharedDeps
+//	cli/cli.go                     readConfig: the default of `discard_overflow` for a pool that does not mention it
 //
 // into lean/Pandora/Gen/Waiter.lean, as definitions over the vocabulary of Pandora/Model/C04.lean (records `Waiter`,
 // `Env`, `DiscardSample`, `timeSub`). The file is core-only. Reading of Go used here (trusted, see notes/C04.md):
@@ -16,6 +19,13 @@ package main
 //	a.Sub(b) on time.Time                     -> timeSub a b  (exact; Go saturates, sign preserved)
 //	if w.timer == nil {NewTimer(d)} else {Reset(d)}  -> (arms the timer for d; no state the model reads)
 //	select { case <-w.timer.C: A; case <-ctx.Done(): B }  -> if e.timerWins then A else B
+//	w.sched.Left()                            -> left
+//	instance.Run: `for !waiter.IsFinished(ctx) { err := func() error {BODY}(); if err != nil { return err } }`
+//	    -> one pass = `if it.finished then loopEnd else BODY`; in BODY: Acquire -> it.ammoOk, waiter.Wait(ctx) -> Wait w it.env,
+//	       waiter.IsSlowDown(ctx) -> IsSlowDown w it.ctxDoneSlow, gun.Shoot -> Outcome.shoot,
+//	       aggregator.Report(netsample.DiscardedShootSample()) -> Outcome.discard DiscardedShootSample;
+//	       statements without an effect the property speaks about are skipped: i.log.*, i.metrics.*.Add, `if tag.Debug {log}`,
+//	       `defer i.provider.Release(ammo)`, the deferred recover/metrics closure of Run
 //
 // Anything else in these functions makes gen fail (broken obligation).
 
@@ -23,9 +33,12 @@ import (
 	"bytes"
 	"fmt"
 	"go/ast"
+	"go/parser"
 	"go/printer"
 	"go/token"
 	"go/types"
+	"path/filepath"
+	"reflect"
 	"strconv"
 	"strings"
 
@@ -150,6 +163,9 @@ func (x *wtr) expr(e ast.Expr) string {
 	case *ast.CallExpr:
 		if x.src(v) == "time.Now()" {
 			return "e.now"
+		}
+		if x.src(v) == x.recv+".sched.Left()" {
+			return "left"
 		}
 		if sel, ok := v.Fun.(*ast.SelectorExpr); ok && sel.Sel.Name == "Sub" && len(v.Args) == 1 {
 			if n, ok := info.TypeOf(sel.X).(*types.Named); ok && n.Obj().Pkg() != nil && n.Obj().Pkg().Path() == "time" && n.Obj().Name() == "Time" {
@@ -304,7 +320,15 @@ func waiterExtra(t *tr) string {
 	} else {
 		t.errs = append(t.errs, "method (*Waiter).Wait not found")
 	}
-	if fd := waiterFindMethod(t.pkg, "Waiter", "IsSlowDown"); fd != nil && len(fd.Recv.List[0].Names) == 1 {
+	for _, m := range []struct{ name, sig, wrap string }{
+		{"IsSlowDown", "(RECV : Waiter) (ctxDone : Bool) : Bool", "decide "},
+		{"IsFinished", "(ctxDone : Bool) (left : Int) : Bool", "decide "},
+	} {
+		fd := waiterFindMethod(t.pkg, "Waiter", m.name)
+		if fd == nil || len(fd.Recv.List[0].Names) != 1 {
+			t.errs = append(t.errs, "method (*Waiter)."+m.name+" not found")
+			continue
+		}
 		x.recv = fd.Recv.List[0].Names[0].Name
 		// select { case <-ctx.Done(): return A; default: return B }
 		ok := false
@@ -318,17 +342,15 @@ func waiterExtra(t *tr) string {
 					r1, isR1 := c1.Body[0].(*ast.ReturnStmt)
 					if isEs && isR0 && isR1 && x.isCtxDone(es.X) && len(r0.Results) == 1 && len(r1.Results) == 1 {
 						ok = true
-						b.WriteString("/-- regenerated from `core/coreutil/waiter.go` method `(*Waiter).IsSlowDown` -/\n")
-						b.WriteString("def IsSlowDown (" + x.recv + " : Waiter) (ctxDone : Bool) : Bool :=\n  if ctxDone then " + x.expr(r0.Results[0]) + " else decide " + x.expr(r1.Results[0]) + "\n\n")
+						b.WriteString("/-- regenerated from `core/coreutil/waiter.go` method `(*Waiter)." + m.name + "` -/\n")
+						b.WriteString("def " + m.name + " " + strings.ReplaceAll(m.sig, "RECV", x.recv) + " :=\n  if ctxDone then " + x.expr(r0.Results[0]) + " else " + m.wrap + x.expr(r1.Results[0]) + "\n\n")
 					}
 				}
 			}
 		}
 		if !ok {
-			x.fail(fd, "IsSlowDown shape")
+			x.fail(fd, m.name+" shape")
 		}
-	} else {
-		t.errs = append(t.errs, "method (*Waiter).IsSlowDown not found")
 	}
 
 	// --- netsample
@@ -442,5 +464,381 @@ func waiterExtra(t *tr) string {
 	if !found {
 		t.errs = append(t.errs, "fire/discard if of (*instance).Run not found")
 	}
+
+	// --- engine: the whole loop of (*instance).Run as one function of a pass
+	if fd := waiterFindMethod(en, "instance", "Run"); fd != nil {
+		b.WriteString("\n" + ex.instanceLoop(fd))
+	} else {
+		t.errs = append(t.errs, "method (*instance).Run not found")
+	}
+
+	// --- engine: config key of the pool option and its way into the instances
+	b.WriteString("\n" + ex.engineWiring())
+
+	// --- cli: default of discard_overflow
+	b.WriteString("\n" + cliDiscardDefault(t))
+	return b.String()
+}
+
+// ---------------------------------------------------------------------------------------------------------------
+// (*instance).Run
+
+// ignorable: a statement without an effect the property speaks about (logging, metrics, releasing the ammo).
+func (x *wtr) ignorable(s ast.Stmt) bool {
+	switch v := s.(type) {
+	case *ast.ExprStmt:
+		src := x.src(v)
+		if strings.HasPrefix(src, "i.log.") {
+			return true
+		}
+		if strings.HasPrefix(src, "i.metrics.") && strings.HasSuffix(src, ".Add(1)") {
+			return true
+		}
+	case *ast.IfStmt:
+		if v.Init == nil && v.Else == nil && x.src(v.Cond) == "tag.Debug" {
+			for _, b := range v.Body.List {
+				if !x.ignorable(b) {
+					return false
+				}
+			}
+			return true
+		}
+	case *ast.DeferStmt:
+		if x.src(v.Call) == "i.provider.Release(ammo)" {
+			return true
+		}
+	}
+	return false
+}
+
+// loopCond translates the fire condition over the atoms i.discardOverflow and <waiter>.IsSlowDown(ctx).
+func (x *wtr) loopCond(e ast.Expr, wv string) string {
+	switch v := e.(type) {
+	case *ast.ParenExpr:
+		return x.loopCond(v.X, wv)
+	case *ast.UnaryExpr:
+		if v.Op == token.NOT {
+			return "(!" + x.loopCond(v.X, wv) + ")"
+		}
+	case *ast.BinaryExpr:
+		if v.Op == token.LOR {
+			return "(" + x.loopCond(v.X, wv) + " || " + x.loopCond(v.Y, wv) + ")"
+		}
+		if v.Op == token.LAND {
+			return "(" + x.loopCond(v.X, wv) + " && " + x.loopCond(v.Y, wv) + ")"
+		}
+	case *ast.SelectorExpr:
+		if x.src(v) == "i.discardOverflow" {
+			return "discardOverflow"
+		}
+	case *ast.CallExpr:
+		if x.src(v) == wv+".IsSlowDown(ctx)" {
+			return "(IsSlowDown w it.ctxDoneSlow)"
+		}
+	}
+	return x.fail(e, "fire condition %s", x.src(e))
+}
+
+// branchOutcome: the one effect of a branch of the fire/discard `if`.
+func (x *wtr) branchOutcome(b *ast.BlockStmt) string {
+	var eff []string
+	for _, s := range b.List {
+		if x.ignorable(s) {
+			continue
+		}
+		switch x.src(s) {
+		case "i.gun.Shoot(ammo)":
+			eff = append(eff, "Outcome.shoot")
+		case "i.aggregator.Report(netsample.DiscardedShootSample())":
+			eff = append(eff, "(Outcome.discard DiscardedShootSample)")
+		default:
+			return x.fail(s, "statement %s in a branch of the fire/discard if", x.src(s))
+		}
+	}
+	if len(eff) != 1 {
+		return x.fail(b, "a branch of the fire/discard if has %d effects (want exactly one of Shoot / Report(DiscardedShootSample()))", len(eff))
+	}
+	return eff[0]
+}
+
+// closure translates the body of the `func() error {…}` of one pass into a term of type `Waiter × Outcome`.
+func (x *wtr) closure(stmts []ast.Stmt, wv string, ind string) string {
+	for len(stmts) > 0 && x.ignorable(stmts[0]) {
+		stmts = stmts[1:]
+	}
+	if len(stmts) == 0 {
+		return ind + "(UNSUPPORTED-fallthrough)"
+	}
+	s, rest := stmts[0], stmts[1:]
+	switch v := s.(type) {
+	case *ast.AssignStmt:
+		// ammo, ok := i.provider.Acquire(); if !ok { …; return <non-nil> }
+		if len(v.Lhs) == 2 && len(v.Rhs) == 1 && x.src(v.Rhs[0]) == "i.provider.Acquire()" && x.src(v.Lhs[0]) == "ammo" && len(rest) > 0 {
+			okv := x.src(v.Lhs[1])
+			if ifs, isIf := rest[0].(*ast.IfStmt); isIf && ifs.Init == nil && ifs.Else == nil && x.src(ifs.Cond) == "!"+okv && len(ifs.Body.List) > 0 {
+				body := ifs.Body.List
+				for len(body) > 1 && x.ignorable(body[0]) {
+					body = body[1:]
+				}
+				if ret, isRet := body[0].(*ast.ReturnStmt); isRet && len(body) == 1 && len(ret.Results) == 1 && x.src(ret.Results[0]) != "nil" {
+					return ind + "if !it.ammoOk then (w, Outcome.outOfAmmo) else\n" + x.closure(rest[1:], wv, ind)
+				}
+			}
+		}
+	case *ast.IfStmt:
+		if v.Init != nil {
+			break
+		}
+		// if !waiter.Wait(ctx) { return nil }
+		if v.Else == nil && x.src(v.Cond) == "!"+wv+".Wait(ctx)" && len(v.Body.List) == 1 && x.src(v.Body.List[0]) == "return nil" {
+			return ind + "let r := Wait w it.env\n" + ind + "let w : Waiter := r.1\n" + ind + "if !r.2 then (w, Outcome.skip) else\n" + x.closure(rest, wv, ind)
+		}
+		// the fire/discard if, followed by `return nil`
+		if eb, isBlock := v.Else.(*ast.BlockStmt); v.Else != nil && isBlock {
+			tail := rest
+			for len(tail) > 0 && x.ignorable(tail[0]) {
+				tail = tail[1:]
+			}
+			if len(tail) == 1 && x.src(tail[0]) == "return nil" {
+				return ind + "if " + x.loopCond(v.Cond, wv) + " then (w, " + x.branchOutcome(v.Body) + ")\n" + ind + "else (w, " + x.branchOutcome(eb) + ")"
+			}
+		}
+	}
+	return ind + x.fail(s, "statement %s of the pass closure", x.src(s))
+}
+
+func (x *wtr) instanceLoop(fd *ast.FuncDecl) string {
+	wv := ""
+	var loop *ast.ForStmt
+	var after []ast.Stmt
+	for k, s := range fd.Body.List {
+		if x.ignorable(s) {
+			continue
+		}
+		switch v := s.(type) {
+		case *ast.DeferStmt:
+			// the deferred recover / metrics closure: no Shoot, no Report
+			src := x.src(v)
+			if strings.Contains(src, "Shoot(") || strings.Contains(src, "Report(") {
+				return x.fail(s, "deferred call with an effect")
+			}
+			continue
+		case *ast.AssignStmt:
+			if loop == nil && len(v.Lhs) == 1 && len(v.Rhs) == 1 && v.Tok == token.DEFINE && x.src(v.Rhs[0]) == "coreutil.NewWaiter(i.schedule)" {
+				wv = x.src(v.Lhs[0])
+				continue
+			}
+		case *ast.ForStmt:
+			if loop == nil {
+				loop = v
+				after = fd.Body.List[k+1:]
+				continue
+			}
+		case *ast.ReturnStmt:
+			if loop != nil && len(after) == 1 && after[0] == s && x.src(s) == "return ctx.Err()" {
+				continue
+			}
+		}
+		return x.fail(s, "statement %s of (*instance).Run", x.src(s))
+	}
+	if loop == nil || wv == "" {
+		return x.fail(fd, "the waiter := coreutil.NewWaiter(i.schedule) / for loop of (*instance).Run not found")
+	}
+	if loop.Init != nil || loop.Post != nil || loop.Cond == nil || x.src(loop.Cond) != "!"+wv+".IsFinished(ctx)" {
+		return x.fail(loop, "loop head (want `for !%s.IsFinished(ctx)`)", wv)
+	}
+	// err := func() error {…}(); if err != nil { return err }
+	body := loop.Body.List
+	var lit *ast.FuncLit
+	if len(body) == 2 {
+		if as, ok := body[0].(*ast.AssignStmt); ok && len(as.Lhs) == 1 && len(as.Rhs) == 1 && x.src(as.Lhs[0]) == "err" {
+			if call, ok := as.Rhs[0].(*ast.CallExpr); ok && len(call.Args) == 0 {
+				lit, _ = call.Fun.(*ast.FuncLit)
+			}
+		}
+		if x.src(body[1]) != "if err != nil { return err }" {
+			lit = nil
+		}
+	}
+	if lit == nil {
+		return x.fail(loop.Body, "loop body (want `err := func() error {…}(); if err != nil { return err }`)")
+	}
+	var b strings.Builder
+	b.WriteString("/-- regenerated from `core/engine/instance.go` `(*instance).Run`: ONE pass of `for !" + wv + ".IsFinished(ctx)` (`" + wv +
+		" := coreutil.NewWaiter(i.schedule)` is created once, before the loop); `it.finished` is the answer of IsFinished -/\n")
+	b.WriteString("def iteration (discardOverflow : Bool) (w : Waiter) (it : Iter) : Waiter × Outcome :=\n")
+	b.WriteString("  if it.finished then (w, Outcome.loopEnd) else\n")
+	b.WriteString(x.closure(lit.Body.List, wv, "  ") + "\n")
+	return b.String()
+}
+
+// engineWiring: `config:"…"` tag of InstancePoolConfig.DiscardOverflow and the field the instances' discardOverflow is copied from.
+func (x *wtr) engineWiring() string {
+	var b strings.Builder
+	key := ""
+	var field *types.Var
+	if obj, ok := x.pkg.Types.Scope().Lookup("InstancePoolConfig").(*types.TypeName); ok {
+		if st, ok := obj.Type().Underlying().(*types.Struct); ok {
+			for k := 0; k < st.NumFields(); k++ {
+				if st.Field(k).Name() == "DiscardOverflow" && isBool(st.Field(k).Type()) {
+					field = st.Field(k)
+					key = reflect.StructTag(st.Tag(k)).Get("config")
+				}
+			}
+		}
+	}
+	if field == nil {
+		x.t.errs = append(x.t.errs, "engine.InstancePoolConfig.DiscardOverflow (bool) not found")
+	}
+	b.WriteString("/-- regenerated from `core/engine/engine.go`: the `config:` tag of `InstancePoolConfig.DiscardOverflow` -/\n")
+	b.WriteString("def poolConfigDiscardKey : String := " + strconv.Quote(key) + "\n\n")
+	// instanceSharedDeps{… discardOverflow: <expr> …} — every literal of that type in the package
+	var wired []string
+	for _, f := range x.pkg.Syntax {
+		ast.Inspect(f, func(n ast.Node) bool {
+			cl, ok := n.(*ast.CompositeLit)
+			if !ok || cl.Type == nil || x.src(cl.Type) != "instanceSharedDeps" {
+				return true
+			}
+			src := "<unset>"
+			for _, el := range cl.Elts {
+				if kv, ok := el.(*ast.KeyValueExpr); ok && x.src(kv.Key) == "discardOverflow" {
+					src = "<other>:" + x.src(kv.Value)
+					if sel, ok := kv.Value.(*ast.SelectorExpr); ok {
+						if s, ok := x.pkg.TypesInfo.Selections[sel]; ok && field != nil && s.Obj() == field {
+							src = "InstancePoolConfig.DiscardOverflow"
+						}
+					}
+				}
+			}
+			wired = append(wired, strconv.Quote(src))
+			return true
+		})
+	}
+	b.WriteString("/-- regenerated from `core/engine`: for every `instanceSharedDeps{…}` literal, what `discardOverflow` is set from -/\n")
+	b.WriteString("def instanceDiscardFrom : List String := [" + strings.Join(wired, ", ") + "]\n\n")
+	// assignments to the field anywhere else in the package would bypass the wiring
+	assigns := 0
+	for _, f := range x.pkg.Syntax {
+		if strings.HasSuffix(x.pkg.Fset.Position(f.Pos()).Filename, "_test.go") {
+			continue
+		}
+		ast.Inspect(f, func(n ast.Node) bool {
+			as, ok := n.(*ast.AssignStmt)
+			if !ok {
+				return true
+			}
+			for _, l := range as.Lhs {
+				if sel, ok := l.(*ast.SelectorExpr); ok && (sel.Sel.Name == "discardOverflow" || sel.Sel.Name == "DiscardOverflow") {
+					assigns++
+				}
+			}
+			return true
+		})
+	}
+	b.WriteString("/-- regenerated from `core/engine`: number of assignment statements that write a `discardOverflow`/`DiscardOverflow` field -/\n")
+	b.WriteString(fmt.Sprintf("def discardFieldAssignments : Nat := %d\n", assigns))
+	return b.String()
+}
+
+// cliDiscardDefault reads cli/cli.go (syntax only) for
+//
+//	if pools, ok := v.Get(K).([]any); ok { for i, pool := range pools { …
+//	    if _, ok := poolMap[KEY]; !ok { poolMap[KEY2] = VALUE } … pools[i] = poolMap } v.Set(K2, pools) }
+func cliDiscardDefault(t *tr) string {
+	var b strings.Builder
+	fset := token.NewFileSet()
+	path := filepath.Join(repo, "cli", "cli.go")
+	f, err := parser.ParseFile(fset, path, nil, 0)
+	if err != nil {
+		t.errs = append(t.errs, "cli/cli.go: "+err.Error())
+		return ""
+	}
+	src := func(n ast.Node) string {
+		var bb bytes.Buffer
+		_ = printer.Fprint(&bb, fset, n)
+		return strings.Join(strings.Fields(bb.String()), " ")
+	}
+	var rc *ast.FuncDecl
+	for _, d := range f.Decls {
+		if fd, ok := d.(*ast.FuncDecl); ok && fd.Recv == nil && fd.Name.Name == "readConfig" {
+			rc = fd
+		}
+	}
+	if rc == nil {
+		t.errs = append(t.errs, "cli.readConfig not found")
+		return ""
+	}
+	type hit struct{ getKey, setKey, lookKey, putKey, val, decodeAfter string }
+	var hits []hit
+	for k, s := range rc.Body.List {
+		outer, ok := s.(*ast.IfStmt)
+		if !ok || outer.Init == nil || !strings.Contains(src(outer.Init), "v.Get(") {
+			continue
+		}
+		h := hit{}
+		// pools, ok := v.Get("pools").([]any)
+		if as, ok := outer.Init.(*ast.AssignStmt); ok && len(as.Rhs) == 1 {
+			if ta, ok := as.Rhs[0].(*ast.TypeAssertExpr); ok {
+				if call, ok := ta.X.(*ast.CallExpr); ok && src(call.Fun) == "v.Get" && len(call.Args) == 1 {
+					h.getKey = src(call.Args[0])
+				}
+			}
+		}
+		ast.Inspect(outer.Body, func(n ast.Node) bool {
+			switch v := n.(type) {
+			case *ast.IfStmt:
+				as, ok := v.Init.(*ast.AssignStmt)
+				if !ok || len(as.Lhs) != 2 || len(as.Rhs) != 1 || src(as.Lhs[0]) != "_" || v.Else != nil || len(v.Body.List) != 1 {
+					return true
+				}
+				ix, ok := as.Rhs[0].(*ast.IndexExpr)
+				if !ok || src(v.Cond) != "!"+src(as.Lhs[1]) {
+					return true
+				}
+				put, ok := v.Body.List[0].(*ast.AssignStmt)
+				if !ok || len(put.Lhs) != 1 || len(put.Rhs) != 1 {
+					return true
+				}
+				pix, ok := put.Lhs[0].(*ast.IndexExpr)
+				if !ok || src(pix.X) != src(ix.X) {
+					return true
+				}
+				h.lookKey, h.putKey, h.val = src(ix.Index), src(pix.Index), src(put.Rhs[0])
+			case *ast.ExprStmt:
+				if call, ok := v.X.(*ast.CallExpr); ok && src(call.Fun) == "v.Set" && len(call.Args) == 2 {
+					h.setKey = src(call.Args[0])
+				}
+			}
+			return true
+		})
+		// the decode that follows must read the (updated) viper settings
+		for _, later := range rc.Body.List[k+1:] {
+			if strings.Contains(src(later), "config.DecodeAndValidate(v.AllSettings(), conf)") {
+				h.decodeAfter = "config.DecodeAndValidate(v.AllSettings(), conf)"
+			}
+		}
+		hits = append(hits, h)
+	}
+	if len(hits) != 1 || (hits[0].val != "true" && hits[0].val != "false") {
+		t.errs = append(t.errs, fmt.Sprintf("cli.readConfig: the `discard_overflow` default block was not recognised (%d candidates)", len(hits)))
+		return ""
+	}
+	h := hits[0]
+	unq := func(s string) string {
+		if u, err := strconv.Unquote(s); err == nil {
+			return u
+		}
+		return "<not a literal>:" + s
+	}
+	b.WriteString("/-- regenerated from `cli/cli.go` `readConfig`: for every pool section (a map) of `v.Get(cliPoolsGetKey)`: if the key\n")
+	b.WriteString("`cliDefaultLookupKey` is absent, `cliDefaultPutKey` is set to the value below; the list is written back with `v.Set(cliPoolsSetKey, …)`\n")
+	b.WriteString("before the settings are decoded. `given` = the value the section has for the key, if any. -/\n")
+	b.WriteString("def cliPoolDiscardOverflow (given : Option Bool) : Bool :=\n  match given with\n  | some b => b\n  | none => " + h.val + "\n\n")
+	b.WriteString("def cliDefaultLookupKey : String := " + strconv.Quote(unq(h.lookKey)) + "\n")
+	b.WriteString("def cliDefaultPutKey : String := " + strconv.Quote(unq(h.putKey)) + "\n")
+	b.WriteString("def cliPoolsGetKey : String := " + strconv.Quote(unq(h.getKey)) + "\n")
+	b.WriteString("def cliPoolsSetKey : String := " + strconv.Quote(unq(h.setKey)) + "\n")
+	b.WriteString("def cliDecodesAfterDefault : Bool := " + map[bool]string{true: "true", false: "false"}[h.decodeAfter != ""] + "\n")
 	return b.String()
 }
